@@ -18,7 +18,10 @@ def pair_energy(r, p):
     if p["pot"] == "zero":
         return torch.zeros_like(r), torch.zeros_like(r)
     if p["pot"] == "harm":
-        return 0.5 * p["k"] * (r - p["r0"]) ** 2, p["k"] * (r - p["r0"])
+        # k (r^2 - r0^2)^2 / (8 r0^2): harmonic with constant k at r0, and a polynomial in the Cartesian
+        # coordinates (no cusp at r = 0, unlike (r - r0)^2), so the dt -> 0 asymptotics is clean
+        r0 = p["r0"]
+        return p["k"] * (r * r - r0 * r0) ** 2 / (8.0 * r0 * r0), p["k"] * r * (r * r - r0 * r0) / (2.0 * r0 * r0)
     if p["pot"] == "morse":
         ex = torch.exp(-p["a"] * (r - p["r0"]))
         return p["D"] * (1.0 - ex) ** 2, 2.0 * p["D"] * p["a"] * (1.0 - ex) * ex
@@ -98,7 +101,8 @@ def np_energy_forces(R, real, p):
             if p["pot"] == "zero":
                 e, de = 0.0, 0.0
             elif p["pot"] == "harm":
-                e, de = 0.5 * p["k"] * (r - p["r0"]) ** 2, p["k"] * (r - p["r0"])
+                e = p["k"] * (r * r - p["r0"] ** 2) ** 2 / (8.0 * p["r0"] ** 2)
+                de = p["k"] * r * (r * r - p["r0"] ** 2) / (2.0 * p["r0"] ** 2)
             else:
                 ex = np.exp(-p["a"] * (r - p["r0"]))
                 e, de = p["D"] * (1 - ex) ** 2, 2 * p["D"] * p["a"] * (1 - ex) * ex
